@@ -239,6 +239,9 @@ func (x *Exec) oblige(st *State, kind, site, descr string, props []string, goal 
 	parts := splitGoal(goal)
 	hyps := append([]*Term(nil), st.hyps...)
 	for k, g := range parts {
+		if st.hypSet[g.String()] {
+			g = tTrue // literally one of the hypotheses
+		}
 		name := fmt.Sprintf("%s#%d", base, x.names[base])
 		if len(parts) > 1 {
 			name = fmt.Sprintf("%s#%d.%d", base, x.names[base], k+1)
